@@ -62,6 +62,9 @@ def generate(rng, tier):
         deg = {"lin": 1, "nat": 1, "par": 2}.get(kind, 3)
         nmin = {"lin": 2, "par": 3, "nak": 4}.get(kind, 3)
         n = 3 if kind == "par" else rng.choice([nmin, nmin, nmin + 1, nmin + 3, 9])
+        if not rowwise and n <= 9 and rng.random() < 0.15:
+            trailing = rng.choice([[n], [n - 1], [2, n - 1]])        # a last axis as long as the x axis or the number of intervals
+            L = gen.shape_size(trailing)
         xs = gen.axis_q(rng, n, rng.choice(["uniform", "geometric", "random", "dyadic", "mesh64", "clustered", "evenish", "nearly_even", "nearly_even", "indexlike"]))
         polys = [rpoly(rng, deg) for _ in range(L)]
         if rowwise:
